@@ -55,7 +55,10 @@ def plan(ctx, rng):
         kind = rng.choice(["cip", "cip", "logix", "micro"])
         ops = lifecycle.CIP_OPS if kind == "cip" else lifecycle.LOGIX_OPS
         h = tuple(rng.choice(ops) for _ in range(rng.randint(3, 6 if quick else 8)))
-        items.append((kind, h, rng.choice(lifecycle.POLICIES), rng.random() < 0.7))
+        # (a Micro800 whose ListIdentity reply is undecodable cannot be recognised as one - the driver would rightly treat it as a
+        # ControlLogix and fail on services a Micro800 lacks: that pairing says nothing about the lifecycle and is left out)
+        pols = [p_ for p_ in lifecycle.POLICIES if not (kind == "micro" and p_ == "list-identity-broken")]
+        items.append((kind, h, rng.choice(pols), rng.random() < 0.7))
     return items
 
 
